@@ -30,7 +30,8 @@ impl Shape {
 
     /// The number of elements of an array with the corresponding shape.
     pub fn elements(&self) -> usize {
-        self.iter().product()
+        // Saturate rather than wrap, so that an absurd shape can never match an actual data length
+        self.iter().fold(1, |n, &v| n.saturating_mul(v))
     }
 
     pub(crate) fn index_from_flat_unchecked(&self, mut flat: usize) -> Vec<usize> {
